@@ -88,7 +88,8 @@ Record obs := mkObs {
   o_pulls : list (list (nat * nat));   (* successful pulls (begin, length) per worker *)
   o_sequential : bool;
   o_seen : list (list nat);            (* positions processed per worker, in order *)
-  o_complete : bool                    (* the schedule ran the computation to completion *)
+  o_complete : bool;                   (* the schedule ran the computation to completion *)
+  o_runner : option Runner             (* the terminal's run: [Runner::new] under the parameters last set *)
 }.
 
 Record case := mkCase {
@@ -453,16 +454,20 @@ Definition exec0 (c : case) : obs :=
   let pt := c_panic c in
   if hits pt (ps_clog st) then
     (* the closure panics while the computation is being built (eager site) or inside for_each's map *)
-    mkObs RPanic params (kind_of (ps_par st0)) (ps_clog st0) (ps_consumed st0) [] 0 [] [] false [] true
+    mkObs RPanic params (kind_of (ps_par st0)) (ps_clog st0) (ps_consumed st0) [] 0 [] [] false [] true None
   else if seqmode then
     let tr := flat_map (trace p) src in
     let '(res, lg) := finish_seq t tr src p in
     mkObs (if hits pt lg then RPanic else res) params (kind_of (ps_par st0)) (ps_clog st0) (ps_consumed st0)
-          [late ++ lg] 0 [] [] true [] true
+          [late ++ lg] 0 [] [] true [] true None
   else
-    let input_len := if c_known c || (0 <? ps_runs st)%nat then Some (N.of_nat n) else None in
+    (* a concurrent iterator over an iterator of unknown length that was advanced past its end
+       before into_par() has seen [None] and reports length 0; into_con_iter_x (count / reduce /
+       collect_x) wraps the inner iterator afresh and forgets that *)
+    let exhausted := ordered_of t && (length (c_input c) <? c_pre c)%nat in
+    let input_len := if c_known c || (0 <? ps_runs st)%nat || exhausted then Some (N.of_nat n) else None in
     match runner_new params (kernel_task k t) input_len (c_avail c) with
-    | None => mkObs RPanic params (kind_of (ps_par st0)) (ps_clog st0) (ps_consumed st0) [] 0 [] [] false [] true
+    | None => mkObs RPanic params (kind_of (ps_par st0)) (ps_clog st0) (ps_consumed st0) [] 0 [] [] false [] true None
     | Some r =>
         let pe := pe_of p src in
         let stop := if is_find t then stop_of p src else (fun _ => false) in
@@ -488,10 +493,10 @@ Definition exec0 (c : case) : obs :=
         let res := if done && negb dead then finish t pe n (kind_of p) wl else RPanic in
         let wlog := if is_find t then map (w_calls_find pe) wl else map (w_calls_full pe) wl in
         mkObs res params (kind_of (ps_par st0)) (ps_clog st0) (ps_consumed st0) (late :: wlog)
-              (length wl) (map csize wl) (map pulls wl) false (map seen wl) done
+              (length wl) (map csize wl) (map pulls wl) false (map seen wl) done (Some r)
     end.
 
 Definition exec (c : case) : obs :=
   let o := exec0 c in
   mkObs (shift_res (c_pre c) (o_result o)) (o_params o) (o_kind o) (o_clog o) (o_consumed o) (o_rlog o)
-        (o_spawned o) (o_chunks o) (o_pulls o) (o_sequential o) (o_seen o) (o_complete o).
+        (o_spawned o) (o_chunks o) (o_pulls o) (o_sequential o) (o_seen o) (o_complete o) (o_runner o).
